@@ -1115,7 +1115,7 @@ func runC03V(r *Run, rng *Rng, replay string) {
 		default:
 			// whole-form defects (SDWA selection, CLAMP, 64-bit inline float constants) are keyed by the form alone
 			ft := c03vFeature(c)
-			if ft == "" && c03vOnlyZeroSign(x.impl, spec[i]) {
+			if ft == "" && containsAny(c.op.name, "_min", "_max") && c03vOnlyZeroSign(x.impl, spec[i]) {
 				ft = ".signedzero" // e.g. an inline constant 0 against a -0 register value
 			}
 			sig := fmt.Sprintf("C03.%s.%s.%s_%d.%s%s", c.op.arch, c.op.name, c.op.format, c.op.op, c03vAspect(x.impl, spec[i], valu), ft)
